@@ -46,7 +46,7 @@ SIG_DOC_NAN = "reopened document: Calculate stores an action for a formula cell 
 PROFILE = {"add_formula_column": 10, "modify_formula": 6, "summary": 4, "update_summary": 1.5, "add_ref_column": 4,
            "reverse_column": 1, "update_record": 18, "bulk_update": 8, "remove_record": 8, "bulk_remove": 4,
            "replace_data": 2, "rename_column": 4, "modify_type": 5, "to_formula": 2, "to_data": 1,
-           "undo_earlier": 3, "malformed": 2, "trigger_column": 0, "trigger_config": 0}
+           "undo_earlier": 3, "malformed": 2, "trigger_column": 0, "trigger_config": 0, "unhashable_key": 5}
 CFG = {"oracles": (), "n_bundles": 14, "profile": PROFILE, "hook": "gx.props.c07.install", "tie": False}
 
 
@@ -254,13 +254,19 @@ def install(h, cfg):
 
 def stale_in_original(doc, snap):
   """C05's comparison: does a fresh engine loaded from the DATA columns only (everything
-  recalculated from scratch) differ from the running engine?"""
+  recalculated from scratch) differ from the running engine?  Returns (stale, known): `known` is true
+  when the difference is one of C05's RECORDED classes (lookup on a removed key column, order
+  dependence inside a lookup cycle); only those are attributed to the recorded finding."""
   from gx import engine_driver as ed
+  from gx.hist_run import circ_order_only, stale_lookup_only
   try:
     fresh, res = ed.fresh_engine_from(doc)
-    return (not res.ok) or bool(ed.diff_snapshots(snap, fresh.snapshot()))
+    if not res.ok:
+      return True, False
+    d = ed.diff_snapshots(snap, fresh.snapshot())
+    return bool(d), bool(d) and (circ_order_only(doc, d) or stale_lookup_only(doc, d))
   except Exception:
-    return False
+    return False, False
 
 
 def reopen_oracle(h, rec):
@@ -282,9 +288,10 @@ def reopen_oracle(h, rec):
   acts = "+".join(sorted(set(a[0] for a in rec["actions"])))
   a, b = doc.snapshot(), fresh.snapshot()
   d = ed.diff_snapshots(a, b)
-  if (res.stored or d) and stale_in_original(doc, a):
+  stale, known = stale_in_original(doc, a) if (res.stored or d) else (False, False)
+  if stale and known:
     # not a reload problem: the running engine itself holds a value that a from-scratch
-    # recalculation of the same data does not produce (C05's property); reopening merely reveals it
+    # recalculation of the same data does not produce, in one of the ways recorded for C05
     h._find(PROP, SIG_STALE, "%s; Calculate stored %s" % ("; ".join(d[:2]), json.dumps(res.stored)[:200]), rec)
     return
   if res.stored:
